@@ -66,8 +66,17 @@ ASSUME = ["named struct types A, B (mutually recursive through pointers, slices 
 def check_C01(run):
     summ, obs = pipeline(run)
     n, d = summarise(run, obs, False)
+    # every other family that compiles generated code reports uncompilable output as a C01 fingerprint: type shapes
+    # (incl. unnamed struct types with tags / embedded fields, named reference types) and field / update / default programs
+    import fam_rules
+    import fam_struct
+    rsumm, rscen, robs = fam_rules.pipeline(run, "VAL")
+    ssumm, sobs = fam_struct.pipeline(run)
+    n += rsumm.get("generated", 0) + ssumm.get("generated", 0)
+    d += rsumm.get("generated", 0) + ssumm.get("generated", 0)
     run.assumptions = ASSUME + ["Go's type checker is the observation (not re-specified); the spec contributes the generator-controlled causes (stale call edges, import alias shadowing)"]
-    return run.finish("every replayed program generated by the real tool, written, compiled per program and asserted to implement the declared interface; distinct = distinct (program, directory name, outcome)", n, d)
+    return run.finish("every replayed program of the calls family generated by the real tool, written, compiled per program and asserted to implement the declared interface; "
+                      "plus every generating scenario of the rules value universe and of the struct family, each compiled in a file of its own; distinct = distinct (program, directory name, outcome)", n, d)
 
 
 def check_C06(run):
